@@ -6,6 +6,7 @@ mod clients;
 mod cluster;
 mod lin;
 mod logsim;
+mod mergesim;
 mod net;
 mod node;
 mod oracle;
@@ -57,6 +58,10 @@ fn main() {
         "smsim" => {
             let seed: u64 = kv.get("seed").and_then(|s| s.parse().ok()).unwrap_or(1);
             std::process::exit(smsim::run_cli(seed, &kv));
+        }
+        "mergesim" => {
+            let seed: u64 = kv.get("seed").and_then(|s| s.parse().ok()).unwrap_or(1);
+            std::process::exit(mergesim::run_cli(seed, &kv));
         }
         "smsim-child" => std::process::exit(smsim::child_main(&kv)),
         _ => {
